@@ -55,8 +55,8 @@ func (hub *Hub) Start(ctx context.Context) {
 	for {
 		select {
 		case <-ctx.Done():
-			// Shutdown
-			close(hub.opChan)
+			// Shutdown.  opChan stays open: stores still emit events while the remaining
+			// sessions drain, and a send on a closed channel would panic in their goroutines.
 			return
 		case op := <-hub.opChan:
 			hub.runOp(op)
